@@ -45,6 +45,27 @@ def parse_bad(bad):
     return out
 
 
+def export_all(rep, progs, claims_fn=export.all_claims):
+    """Export the real analyses' claims; a program on which the analyses themselves fail is a violation
+    (they must handle every function of the class) and is left out of the exploration."""
+    keep, claims = [], []
+    for p in progs:
+        try:
+            c = claims_fn(p)
+        except common.MachineryError:
+            raise
+        except Exception as e:
+            rep.violation('%s:analysis-error:%s' % (rep.prop.lower(), type(e).__name__),
+                          'the analyses fail on a function of the class: %s: %s' % (type(e).__name__, str(e)[:200]),
+                          dict(source=mp.render(p)[0]))
+            continue
+        keep.append(p)
+        claims.append(c)
+    if not keep:
+        raise common.MachineryError('the analyses failed on every program')
+    return keep, claims
+
+
 def run_monitor(rep, module, classify, loop_else=False, claims_fn=export.all_claims, progs=None):
     tier = rep.tier
     if progs is None:
@@ -52,7 +73,7 @@ def run_monitor(rep, module, classify, loop_else=False, claims_fn=export.all_cla
         for r in tlcs:
             rep.add_tlc(r)
     wd = common.scratch('%s_%d' % (module, os.getpid()))
-    claims = [claims_fn(p) for p in progs]
+    progs, claims = export_all(rep, progs, claims_fn)
     cf = os.path.join(wd, 'claims.json')
     with open(cf, 'w') as f:
         json.dump(claims, f)
